@@ -8,6 +8,7 @@ CONSTANTS
   CLimits = {1, 2}
   MaxCalls = 1
   MaxDialFail = 1
+  DEAD_ADMITS = FALSE
   DONE_EARLY = TRUE
   DOUBLE_COUNT = FALSE
 INVARIANTS NoRefusalIfEqual
